@@ -141,14 +141,19 @@ PLAN = {
         note="write_dc_parameters offset expression and the reference-clock clause (async fns) not decided here; N>3 device trees not explored",
     ),
     "C08": dict(
-        verus=["pdi_config"], kani=[], level="proof",
-        claim="PdiOffset::{increment, increment_byte_aligned, up_to} (ceil(bits/8) bytes, no overflow under the stated bound) and SubDeviceRef::write_fmmu_config, "
+        verus=["pdi_config", "group_config"], kani=[], level="proof",
+        claim="SubDeviceGroup::configure_fmmus extracted WHOLE (Verus, any number of devices, any sizes): on Ok the windows tile the image in group order - inputs "
+              "[pos_i, pos_i+1) from 0 up to read_pdi_len, then outputs from read_pdi_len up to pdi_len (all inputs before all outputs, mutually disjoint, inside the image) - "
+              "and read_pdi_len <= pdi_len <= MAX_PDI (the precondition C07's cycle relies on), so a layout that does not fit can only end in an error; "
+              "SubDeviceRef::configure_fmmus extracted whole: the window recorded for the direction is exactly [offset given - image start, offset returned - image start), the "
+              "other direction untouched; SubDeviceGroupRef::into_pre_op: the group's image starts at the given logical address and the next group's exactly MAX_PDI further "
+              "(disjoint images), for MAX_PDI < 64 KiB. PdiOffset::{increment, increment_byte_aligned, up_to} (ceil(bits/8) bytes, no overflow under the stated bound) and SubDeviceRef::write_fmmu_config, "
               "verbatim (Verus): the FMMU written goes to THIS device's own station address and the register of the chosen FMMU, maps "
               "[offset_before, +SM length) onto the sync manager's physical start with read/write enable per direction (or extends an already enabled "
               "mapping by the SM length, refusing > 65535), and the running offset advances by exactly ceil(bits/8)",
-        note="NOT decided here: the SM loops of configure_pdos_eeprom / configure_pdos_coe (iterator adapters: bit-length sums, oversampling), the group-level "
-             "configure_fmmus loops (inputs before outputs, PdiTooLong), into_pre_op's group offsets and the PDI guards - the claim is narrowed to the "
-             "leaf that programs the FMMU; ESC hardware semantics assumed",
+        note="NOT decided here: the SM loops of configure_pdos_eeprom / configure_pdos_coe (iterator adapters: bit-length sums, oversampling) - ASSUMED to return the "
+             "segment [offset in, offset out) - and the PDI guards of src/subdevice/pdi.rs; the group-level unit sees the per-device step through the abstraction "
+             "`window_assigned` of the contract proved in pdi_config; ESC hardware semantics assumed",
     ),
     "C09": dict(
         verus=["init_addr"], kani=[], level="proof",
